@@ -46,6 +46,11 @@ def first_connections(rnd):
     hsn = ref6455.handshake_response(acc, extra=b"Sec-WebSocket-Extensions: permessage-deflate; server_no_context_takeover; client_no_context_takeover; client_max_window_bits=9\r\n")
     pn = ref7692.Peer(15, 9, True, True)
     sc("compression-no-takeover-small-window", [("data", 0, hsn + E(1, pn.compress(b"alpha beta gamma " * 10), rsv=4) + E(1, pn.compress(b"alpha beta"), rsv=4)), ("eof", 0)], ws_compress=True)
+    # Close frames whose reason is cut inside a character / is not UTF-8 at all / is fine: whatever validated the reason is done
+    sc("close-reason-cut-inside-a-character", [("data", 0, hs + E(8, ref6455.close_payload(1000, b"bye \xe2\x82"))), ("eof", 0)])
+    sc("close-reason-not-utf8", [("data", 0, hs + E(8, ref6455.close_payload(1000, b"\xff\xfe"))), ("eof", 0)])
+    sc("close-with-reason", [("data", 0, hs + E(8, ref6455.close_payload(1001, "tschüß".encode()))), ("eof", 0)])
+    sc("text-cut-inside-a-character-then-eof", [("data", 0, hs + E(1, b"caf\xc3")), ("eof", 0)])
     sc("while-closing", [("data", 0, hs + E(1, b"a")), ("eof", 0)], app={3: [("close", 1000, b"bye")]})
     sc("closing-timeout", [("data", 0, hs)] + [("timeout", 5120)] * 9, app={2: [("close", 1000, b"")]})
     sc("closed-gracefully", [("data", 0, hs + E(8, b"\x03\xe8")), ("eof", 0)])
@@ -98,6 +103,8 @@ def _fresh_single(args):
         d = dict(sc)
         ws_kwargs = d.pop("_kw", {})
         d["_ws_object"] = W.WebSocket("ws://example.test/chat", **ws_kwargs)
+        for h, v in d.pop("_obj_headers", None) or ():
+            d["_ws_object"].add_header(h, v)
         return simnet.canon_trace(simnet.run_impl(d).trace)
     except BaseException:
         return None
@@ -109,6 +116,10 @@ def _pair_worker(args):
         import lomond.websocket as W
         ws_kwargs = dict(compress=True) if (sc1.get("ws_compress") or sc2.get("ztape")) else {}
         ws = W.WebSocket("ws://example.test/chat", **ws_kwargs)
+        # custom headers belong to the object's configuration (not to a connection): the fresh object gets the same ones
+        obj_headers = sc1.get("_obj_headers") or ()
+        for h, v in obj_headers:
+            ws.add_header(h, v)
         a = dict(sc1)
         a["_ws_object"] = ws
         r1 = simnet.run_impl(a)
@@ -117,6 +128,8 @@ def _pair_worker(args):
         r2 = simnet.run_impl(b)
         fresh = dict(sc2)
         fresh["_ws_object"] = W.WebSocket("ws://example.test/chat", **ws_kwargs)
+        for h, v in obj_headers:
+            fresh["_ws_object"].add_header(h, v)
         r3 = simnet.run_impl(fresh)
         return (simnet.canon_trace(r2.trace), simnet.canon_trace(r3.trace), r1.request, r2.request, r3.request, r1.escaped or r2.escaped or r3.escaped, simnet.canon_trace(r1.trace))
     except BaseException:
@@ -133,6 +146,9 @@ def run(rep, info, model, tier, seed):
     for _ in range(rounds):
         for label, sc1 in first_connections(rnd):
             for compress in (False, True):
+                if rnd.random() < 0.3:
+                    # the application has given the object custom headers (add_header) before connecting
+                    sc1 = dict(sc1, _obj_headers=rnd.choice([[(b"X-Custom", b"1")], [(b"Authorization", b"Bearer abc.def"), (b"X-Two", b"a b")]]))
                 pairs.append((label, sc1, second_connection(rnd, compress)))
     res = fam.pool().map(_pair_worker, pairs, chunksize=4)
     mod = model.run([simnet.to_sx(p[2]) for p in pairs]) if model is not None else [None] * len(pairs)
@@ -173,7 +189,7 @@ def run(rep, info, model, tier, seed):
     # the second connection and that object agree, the baseline is taken again from a WebSocket constructed in a fresh interpreter
     for label, sc1, sc2, t2 in suspects:
         kw = dict(compress=True) if (sc1.get("ws_compress") or sc2.get("ztape")) else {}
-        base = fam.fresh_run([dict(sc2, _kw=kw)], runner="harness.c17:_fresh_single")[0]
+        base = fam.fresh_run([dict(sc2, _kw=kw, _obj_headers=sc1.get("_obj_headers"))], runner="harness.c17:_fresh_single")[0]
         if base is not None and base != t2:
             k = 0
             while k < min(len(t2), len(base)) and t2[k] == base[k]:
@@ -227,9 +243,9 @@ def replay(body):
     if isinstance(r, str):
         print(r)
         return 2
-    ok = r[0] == r[1]
+    ok = r[0] == r[1] and r[3] == r[4] and not (r[2] is not None and r[3] is not None and _key_of(r[2]) == _key_of(r[3])) and not r[5]
     if ok and sc.get("fresh_interpreter"):
-        base = fam.fresh_run([dict(fam.unjson_sc(sc["next"]), _kw=sc.get("kw") or {})], runner="harness.c17:_fresh_single")[0]
+        base = fam.fresh_run([dict(fam.unjson_sc(sc["next"]), _kw=sc.get("kw") or {}, _obj_headers=fam.unjson_sc(sc["previous"]).get("_obj_headers"))], runner="harness.c17:_fresh_single")[0]
         ok = base is None or base == r[0]
     print("second connection == fresh object:", ok)
     print("REPLAY:", "property holds on this input" if ok else "VIOLATION reproduced")
